@@ -208,6 +208,11 @@ impl Codec {
     fn encode_item(&self, item: Encoded, dst: &mut BytePages) -> Result<(), EncodeError> {
         match item {
             Encoded::Packet(pkt) => {
+                // no packet may start inside the payload of a streamed publish
+                if self.encoding_payload.get().is_some() {
+                    log::trace!("Expect payload, received {pkt:?}");
+                    return Err(EncodeError::ExpectPayload);
+                }
                 let content_size = encode::get_encoded_size(&pkt);
                 encode::encode(&pkt, dst, content_size as u32)?;
                 Ok(())
